@@ -73,7 +73,7 @@ class CubicBezier(ArcLengthMixin, Segment):
             if upper > 1:
                 upper = 1
             ldist = self.pointAtTime(lower).distanceFrom(p)
-            rdist = self.pointAtTime(lower).distanceFrom(p)
+            rdist = self.pointAtTime(upper).distanceFrom(p)
             if ldist < bestDist:
                 bestT = lower
                 bestDist = ldist
